@@ -599,6 +599,47 @@ def _chain_start(toks, i):
     return k + 1
 
 
+def n29_map_collect_method(src, log, name):
+    """let X = RECV.iter().map(|P| { BODY }).collect::<Vec<_>>();   (the closure is cut separately as method NAME, rule X3)
+         ->  let mut X = Vec::new(); for __vx_m in 0..RECV.len() { let __vx_item = self.NAME(&RECV[__vx_m]); X.push(__vx_item); }
+    (std: Iterator::map + collect into a Vec call the closure once per element, in order, and keep the results in order)"""
+    toks = lex(src)
+    for i, t in enumerate(toks):
+        if not (t.text == "let" and t.kind == "ident" and i + 3 < len(toks) and toks[i + 1].kind == "ident" and toks[i + 2].text == "="):
+            continue
+        d = t.depth
+        k = i + 3
+        while k < len(toks) and not (toks[k].text == ";" and toks[k].depth == d):
+            if toks[k].kind == "open":
+                k = toks[k].mate
+            k += 1
+        semi = k
+        if semi >= len(toks):
+            continue
+        # find `.iter().map(` at depth d
+        m = None
+        for x in range(i + 3, semi):
+            if toks[x].depth == d and toks[x].text == "." and [toks[y].text for y in range(x, x + 6)] == [".", "iter", "(", ")", ".", "map"] and toks[x + 6].text == "(":
+                m = x
+                break
+        if m is None:
+            continue
+        op = m + 6
+        cl = toks[op].mate
+        if "".join(tk.text for tk in toks[cl + 1:semi]) != ".collect::<Vec<_>>()":
+            continue
+        # the closure: |ident| { .. }
+        if not (toks[op + 1].text == "|" and toks[op + 2].kind == "ident" and toks[op + 3].text == "|" and toks[op + 4].text == "{" and toks[op + 4].mate == cl - 1):
+            continue
+        recv = "".join(src[toks[i + 3].start:toks[m].start].split())
+        x_name = toks[i + 1].text
+        rep = (f"let mut {x_name} = Vec::new(); for __vx_m in 0..{recv}.len() /*vx:map:{x_name}*/ {{ let __vx_item = self.{name}(&{recv}[__vx_m]); "
+               f"{x_name}.push(__vx_item); }}")
+        log.append(f"N29 let {x_name} = {recv}.iter().map(<closure cut as {name}>).collect::<Vec<_>>() -> loop calling self.{name} per element, in order")
+        return src[:t.start] + rep + src[toks[semi].end:]
+    raise Unsupported(f"N29: no `let X = R.iter().map(|p| {{..}}).collect::<Vec<_>>();` for {name}")
+
+
 def n7_sum(src, log, helper="vx_sum_u64", elem="u64"):
     """E.sum()  ->  { let __vx_sK: Vec<u64> = E.collect(); vx_sum_u64(__vx_sK) }
     (comment markers /*vx:sumK:pre*/ and /*vx:sumK:post*/ are anchors for proof blocks)"""
@@ -1611,6 +1652,8 @@ def normalise(src, rules, log, ctx=None):
             src = n1_closure_patterns(src, log)
         elif r == "n7sum":
             src = n7_sum(src, log)
+        elif r.startswith("n29:"):
+            src = n29_map_collect_method(src, log, r.split(":", 1)[1])
         elif r == "n10":
             src = n10_entry_append(src, log)
         elif r == "nmirlits":
